@@ -735,14 +735,16 @@ def compare(case, res, replies):
             if b["ids"] != _static_ids(case, op["els"])[0]:
                 return (f"op {i}: Lean resolve gives the cache files {b['ids']}, the Python naming rule "
                         f"{_static_ids(case, op['els'])[0]}")
-            els = _resolved(op, b["ids"])
-            flow, inputs, replay = _pipe_flow(finals, op["src"], els)
+            # (pipeFlow and the vocabulary do not distinguish exception classes: the reference is taken without them)
+            els = [{k: v for k, v in e.items() if k != "rk"} for e in _resolved(op, b["ids"])]
+            src0 = {k: v for k, v in op["src"].items() if k != "rk"}
+            flow, inputs, replay = _pipe_flow(finals, src0, els)
             if ref != {"vals": flow[0], "exc": flow[1]}:
                 return f"op {i}: Lean pipeFlow {ref} differs from the Python reference {flow}"
             # the specification vocabulary of the theorems, evaluated by the driver, against Python
             k = op["take"]
             end = "stopped" if (k is not None and k <= len(flow[0])) else ("exhausted" if flow[1] is None else flow[1])
-            erased = _pipe_flow([None] * len(finals), op["src"], [e for e in els if e["k"] == "map"])[0]
+            erased = _pipe_flow([None] * len(finals), src0, [e for e in els if e["k"] == "map"])[0]
             py = {"distinct": len(set(b["ids"])) == len(b["ids"]),
                   "nofilled": replay is None,
                   "modeok": op.get("mode", "source") not in ("bare_hoist", "bare_meta") or (len(els) == 1 and els[0]["k"] == "cache"),
